@@ -1,6 +1,7 @@
 package main
 
 import (
+	"bufio"
 	"bytes"
 	"fmt"
 	"io"
@@ -134,33 +135,98 @@ func c05Nest(c *Ctx, w int, outer, inner uint64) {
 	}
 }
 
+// c05Paused delivers the first complete number (the bytes up to the first one without the continuation bit, at
+// most lim) in its first Read, like a peer that sent one number and now waits for an answer; every later Read is
+// counted: a decoder that asks for more although it holds a complete number would block on a live connection.
+type c05Paused struct {
+	r     *bytes.Reader
+	first int
+	calls int
+	extra *int
+}
+
+func (p *c05Paused) Read(b []byte) (int, error) {
+	p.calls++
+	if p.calls == 1 && p.first > 0 {
+		if len(b) > p.first {
+			b = b[:p.first]
+		}
+		return p.r.Read(b)
+	}
+	*p.extra++
+	return p.r.Read(b)
+}
+
+func c05FirstNumber(input []byte, lim int) int {
+	for i, x := range input {
+		if i >= lim {
+			return 0
+		}
+		if x&0x80 == 0 {
+			return i + 1
+		}
+	}
+	return 0
+}
+
 func c05Dec(c *Ctx, w int, input []byte, kind string) {
 	br := bytes.NewReader(input)
 	var r io.Reader = br
+	var bb *bytes.Buffer
+	var bu *bufio.Reader
+	extra := 0
 	if kind == "rd" {
 		r = plainReader{br}
 	} else if kind == "st" {
 		r = stallReader{br, new(int)}
+	} else if kind == "bb" {
+		bb = bytes.NewBuffer(append([]byte{}, input...))
+		r = bb
+	} else if kind == "bu" {
+		lim := 5
+		if w == 64 {
+			lim = 10
+		}
+		bu = bufio.NewReader(&c05Paused{r: br, first: c05FirstNumber(input, lim), extra: &extra})
+		r = bu
+	}
+	restOf := func() []byte {
+		if bb != nil {
+			return bb.Bytes()
+		}
+		if bu != nil {
+			held, _ := bu.Peek(bu.Buffered())
+			return append(append([]byte{}, held...), input[len(input)-br.Len():]...)
+		}
+		return input[len(input)-br.Len():]
 	}
 	var obs string
 	p, _ := guard(func() {
 		if w == 32 {
 			var v pk.VarInt
 			n, err := v.ReadFrom(r)
-			rest := input[len(input)-br.Len():]
+			ex := extra
+			rest := restOf()
 			if err != nil {
 				obs = "err rest=" + hx(rest)
 			} else {
 				obs = fmt.Sprintf("ok v=%08x n=%d rest=%s", uint32(v), n, hx(rest))
+				if ex > 0 {
+					obs += " extra-reads"
+				}
 			}
 		} else {
 			var v pk.VarLong
 			n, err := v.ReadFrom(r)
-			rest := input[len(input)-br.Len():]
+			ex := extra
+			rest := restOf()
 			if err != nil {
 				obs = "err rest=" + hx(rest)
 			} else {
 				obs = fmt.Sprintf("ok v=%016x n=%d rest=%s", uint64(v), n, hx(rest))
+				if ex > 0 {
+					obs += " extra-reads"
+				}
 			}
 		}
 	})
@@ -172,6 +238,50 @@ func c05Dec(c *Ctx, w int, input []byte, kind string) {
 		op = "varlong.dec"
 	}
 	c.Emit(op, []string{hx(input), kind}, obs)
+}
+
+// c05EncW: WriteTo into a *bufio.Writer of 16 bytes that already holds `fill` bytes (so `16-fill` are free), then Flush;
+// the observation is what arrived behind the filler.
+func c05EncW(c *Ctx, w int, v uint64, fill int) {
+	var out bytes.Buffer
+	obs := ""
+	p, _ := guard(func() {
+		bw := bufio.NewWriterSize(&out, 16)
+		bw.Write(bytes.Repeat([]byte{0xee}, fill))
+		var n int64
+		var err error
+		var l int
+		if w == 32 {
+			x := pk.VarInt(int32(uint32(v)))
+			n, err = x.WriteTo(bw)
+			l = x.Len()
+		} else {
+			x := pk.VarLong(int64(v))
+			n, err = x.WriteTo(bw)
+			l = x.Len()
+		}
+		bw.Flush()
+		got := out.Bytes()
+		if len(got) >= fill {
+			got = got[fill:]
+		}
+		obs = fmt.Sprintf("%s len=%d wn=%d", hx(got), l, n)
+		if err != nil {
+			obs += " err"
+		}
+	})
+	if p {
+		obs = "panic"
+	}
+	op := "varint.encw"
+	if w == 64 {
+		op = "varlong.encw"
+	}
+	hexv := fmt.Sprintf("%08x", uint32(v))
+	if w == 64 {
+		hexv = fmt.Sprintf("%016x", v)
+	}
+	c.Emit(op, []string{hexv, strconv.Itoa(fill)}, obs)
 }
 
 // c05Dec2: two consecutive decodes from ONE reader into ONE destination that already holds `prior`; with
@@ -234,6 +344,14 @@ func replayC05(c *Ctx, op string, args []string) bool {
 			w = 64
 		}
 		c05Enc(c, w, v)
+	case "varint.encw", "varlong.encw":
+		v, _ := strconv.ParseUint(args[0], 16, 64)
+		f, _ := strconv.Atoi(args[1])
+		w := 32
+		if op == "varlong.encw" {
+			w = 64
+		}
+		c05EncW(c, w, v, f)
 	case "varint.dec2", "varlong.dec2":
 		w := 32
 		if op == "varlong.dec2" {
@@ -354,7 +472,19 @@ func genC05(c *Ctx) {
 		}
 	}
 	// decoders: exhaustive short inputs
-	kinds := []string{"br", "rd", "st"}
+	// writers with little room left: every fill level of a 16-byte bufio.Writer x every encoded length
+	for _, w := range []int{32, 64} {
+		for k := 0; k < w; k += 7 {
+			for fill := 0; fill <= 16; fill++ {
+				v := uint64(1)<<uint(k) | c.R.Uint64()&(uint64(1)<<uint(k)-1)
+				c05EncW(c, w, v, fill)
+			}
+		}
+		for fill := 0; fill <= 16; fill++ {
+			c05EncW(c, w, ^uint64(0), fill)
+		}
+	}
+	kinds := []string{"br", "rd", "st", "bb", "bu"}
 	for _, w := range []int{32, 64} {
 		c05Dec(c, w, nil, "br")
 		c05Dec(c, w, nil, "rd")
@@ -365,20 +495,20 @@ func genC05(c *Ctx) {
 		}
 		for a := 0; a < 256; a++ {
 			for b := 0; b < 256; b++ {
-				c05Dec(c, w, []byte{byte(a), byte(b)}, kinds[(a+b)%3])
+				c05Dec(c, w, []byte{byte(a), byte(b)}, kinds[(a+b)%5])
 			}
 		}
 		if c.Thorough() {
 			for a := 0; a < 256; a++ {
 				for b := 0; b < 256; b++ {
 					for d := 0; d < 256; d++ {
-						c05Dec(c, w, []byte{byte(a), byte(b), byte(d)}, kinds[(a+b+d)%3])
+						c05Dec(c, w, []byte{byte(a), byte(b), byte(d)}, kinds[(a+b+d)%5])
 					}
 				}
 			}
 		} else {
 			for i := 0; i < 20000; i++ {
-				c05Dec(c, w, []byte{byte(c.R.Intn(256)), byte(c.R.Intn(256)), byte(c.R.Intn(256))}, kinds[i%3])
+				c05Dec(c, w, []byte{byte(c.R.Intn(256)), byte(c.R.Intn(256)), byte(c.R.Intn(256))}, kinds[i%5])
 			}
 		}
 		// structured: k continuation bytes, a terminator, trailing bytes
@@ -394,7 +524,7 @@ func genC05(c *Ctx) {
 				for t := c.R.Intn(4); t > 0; t-- {
 					in = append(in, byte(c.R.Intn(256)))
 				}
-				c05Dec(c, w, in, kinds[rep%3])
+				c05Dec(c, w, in, kinds[rep%5])
 			}
 		}
 		// minimal encodings of boundary and random values with trailing bytes
@@ -407,7 +537,7 @@ func genC05(c *Ctx) {
 			for t := c.R.Intn(3); t > 0; t-- {
 				in = append(in, byte(c.R.Intn(256)))
 			}
-			c05Dec(c, w, in, kinds[i%3])
+			c05Dec(c, w, in, kinds[i%5])
 		}
 	}
 }
